@@ -389,7 +389,15 @@ fn has_excl(items: &[vdesign::RangeItem]) -> bool {
 
 /// The selector of an exclusive range is an operator expression narrower than 32 bits.
 fn excl_on_operator(m: &Module, sel: &Expr, items: &[vdesign::RangeItem]) -> bool {
-    has_excl(items) && !matches!(sel, Expr::Lit(_) | Expr::Ref(_) | Expr::EnumVal(..)) && ty_of(m, sel).w < 32
+    // `a..0`: the emitted upper bound `(0)-1` wraps to 32'hffffffff
+    let zero_bound = items.iter().any(|i| match i {
+        vdesign::RangeItem::Excl(_, Expr::Lit(vdesign::Lit::Sized { val, .. })) => val.bits() == 0,
+        vdesign::RangeItem::Excl(_, Expr::Lit(vdesign::Lit::Dec(0))) => true,
+        vdesign::RangeItem::Excl(_, Expr::Lit(_)) => false,
+        vdesign::RangeItem::Excl(..) => true,
+        _ => false,
+    });
+    has_excl(items) && (zero_bound || (!matches!(sel, Expr::Lit(_) | Expr::Ref(_) | Expr::EnumVal(..)) && ty_of(m, sel).w < 32))
 }
 
 fn stmt_excl(m: &Module, v: &[Stmt]) -> bool {
